@@ -181,8 +181,24 @@ fn gen(seed: u64, idx: u64, _tier: Tier) -> Plan {
     let mut t = 30_000u64;
     let rounds = 2 + rng.below(5);
     let mut hid = 0;
-    for _ in 0..rounds {
-        let n = 1 + rng.below(60);
+    // one W-mode run in eight: thousands of events from addresses a full table does not track,
+    // with no snapshot in between (anything that happens at the Nth ignored event)
+    let heavy = !fmode && idx % 24 == 13;
+    if heavy {
+        plan.scenario = "c17.worker_recorders_overflow_heavy".into();
+        let sp = plan.server.as_mut().unwrap();
+        sp.client_stats = Some("on".into());
+        sp.stats_limit = Some(*rng.pick(&[2i64, 3]));
+        sp.status_interval = Some(600);
+        plan.params.insert("ip_pool".into(), 6);
+        plan.world.faults.send_err = 0;
+        plan.world.faults.recv_err = 0;
+        plan.world.rcv_cap = 1 << 16;
+        // (and a machine fast enough to have worked the burst off before the run ends)
+        plan.world.cost_scale = plan.world.cost_scale.min(1000);
+    }
+    for round in 0..rounds {
+        let n = if heavy && round == 0 { 700 + rng.below(600) } else { 1 + rng.below(60) };
         for k in 0..n {
             let req = if rng.chance(1, 4) { storm_spec(&mut rng, &mut ctr) } else { valid_spec(&mut rng, &mut ctr) };
             plan.step(t + k * *rng.pick(&[0u64, 3, 100]), Action::Send { sock: rng.below(24) as u32, req });
@@ -238,7 +254,7 @@ fn gen(seed: u64, idx: u64, _tier: Tier) -> Plan {
         let t_flush = last / 1000 + interval_ms / 10 + 3_000;
         plan.world.horizon_ms = t_flush + interval_ms + 6_000;
     } else {
-        plan.world.horizon_ms = last / 1000 + 700;
+        plan.world.horizon_ms = last / 1000 + if heavy { 4_000 } else { 700 };
     }
     plan
 }
@@ -304,7 +320,7 @@ fn check(plan: &Plan, out: &RunOut) -> CheckOut {
         a
     };
     let tap_total = sum(&t);
-    if plan.scenario == "c17.worker_recorders" {
+    if plan.scenario.starts_with("c17.worker_recorders") {
         // Σ over workers (recorder now) + Σ snapshots pushed (drained by the harness)
         let mut rec: BTreeMap<IpAddr, [u64; 8]> = out.ctx.drained.clone();
         let mut agg_total = [0u64; 8];
